@@ -51,7 +51,7 @@ def parse_wire(w):
     ops = []
     for o in w.split(";"):
         f = o.split()
-        if f[0] in ("g", "u"):
+        if f[0] in ("g", "u", "hg", "B"):
             ops.append((f[0], f[1]))
         else:
             ops.append((f[0], f[1], None if f[2] == "_" else bytes.fromhex(f[2][1:])))
@@ -76,7 +76,9 @@ def run(ctx):
         "modelled not verified: Model/HdrField.v is a hand transcription of the regular expression of field.go as a scanner "
         "(ASCII case folding; Go's leftmost-first priorities), Model/Hdr.v of net/http Header + textproto canonical names + header.go; "
         "both tied by the differential runs below",
-        "not modelled: the Cookie:key paths of request objects (net/http cookie code), values of other types than STRING, compound operators",
+        "Model/HdrCookie.v transcribes net/http readCookies / AddCookie rendering and removeCookieByName / setCookie (the limit on the number "
+        "of cookies is not modelled); no theorem about cookies beyond refinement and frame - the cookie laws are checked by the oracle",
+        "not modelled: values of other types than STRING, compound operators",
     ]
     reads = G.all_reads()
     nreads = len(reads)
@@ -184,7 +186,7 @@ def run(ctx):
                 k = 0
                 while k < len(ops):
                     plain.append(ops[k])
-                    k += 1 + (nreads if ops[k][0] != "g" else 0)
+                    k += 1 + (nreads if ops[k][0] not in ("g", "hg") else 0)
                 if label == "exh1":
                     plain = [ops[0]]
                 for msg, kind in G.oracle(plain, reads, A)[:3]:
@@ -257,6 +259,52 @@ def run(ctx):
         for msg in G.oracle_multi(pre, ops, A)[:2]:
             ctx.violation("store law broken on the implementation (objects of one request): " + msg, dict(rep, law=msg, impl=a[:2000]))
 
+    # ------------------------------------------------------------ special names, several lines, scale
+    # header names with special handling or unusual spelling (Cookie on request objects goes through net/http
+    # cookies, Set-Cookie, Vary, Cache-Control, Surrogate-*, Host, protected names, digits / underscore / dot, a
+    # 114-byte name), 2-4 lines per header (add) with sub-field reads / writes / unsets on keys of any line, reads
+    # through every access path (name, name:key, header.get) before and after every write; and objects that hold
+    # 1 ... 1000 headers, 8 / 64 KiB values, 50 sub-fields with prefix-related keys.
+    spec = []      # (scope, obj, ops, label)
+    spairs = [("RECV", "req"), ("MISS", "bereq"), ("FETCH", "beresp"), ("ERROR", "obj"), ("DELIVER", "resp"), ("LOG", "resp")]
+    for i in range(30000 if thorough else 2600):
+        pair, ops = G.special_history(rng)
+        sc, ob = spairs[i % len(spairs)] if i % 3 else spairs[0]
+        spec.append((sc, ob, ops, "special:" + pair[0][:20]))
+    sizes = [1, 10, 95, 96, 97, 200]
+    for i in range(1500 if thorough else 170):
+        sc, ob = spairs[i % len(spairs)]
+        spec.append((sc, ob, G.scale_history(rng, sizes[i % len(sizes)]), "scale:%d" % sizes[i % len(sizes)]))
+    for i in range(60 if thorough else 6):
+        sc, ob = spairs[i % len(spairs)]
+        spec.append((sc, ob, G.scale_history(rng, 1000), "scale:1000"))
+    sw = [G.xwire(ops) for _, _, ops, _ in spec]
+    si = V.run_batch(impl, ["%s %s %s" % (sc, ob, w) for (sc, ob, _, _), w in zip(spec, sw)], hang_s=20)
+    sm = V.run_batch([model], ["hdr %s %s" % (KIND[ob], w) for (sc, ob, _, _), w in zip(spec, sw)], hang_s=60)
+    sagree = 0
+    for (sc, ob, ops, label), w, a, b in zip(spec, sw, si, sm):
+        evaluations += 1
+        labels[label.split(":")[0]] = labels.get(label.split(":")[0], 0) + 1
+        distinct.add(w)
+        rep = {"scope": sc, "object": ob, "history": w[:4000], "label": label}
+        if a is None or a.startswith(("crash", "died", "hang", "skipped", "badreq", "unwritable")):
+            ctx.violation("header operations %s in %s on %s.http (%s)" % ((a or "no reply")[:100], sc, ob, label), dict(rep, impl=a))
+            continue
+        if b is None or b.startswith(("badreq", "died", "hang")):
+            ctx.violation("model driver failed on a history (%s): %s" % (label, (b or "no reply")[:100]), dict(rep, model=b))
+            continue
+        A = a.split()
+        if a != b:
+            B = b.split()
+            j = next((k for k, (x, y) in enumerate(zip(A, B)) if x != y), min(len(A), len(B)))
+            ctx.violation("Variable.Get/Set/Add/Unset (and header.get) and Model/Hdr.v disagree in %s on %s.http at reply %d (%s): implementation %s, model %s"
+                          % (sc, ob, j, G.xwire([ops[j]])[:80] if j < len(ops) else "-", (A[j] if j < len(A) else "-")[:80], (B[j] if j < len(B) else "-")[:80]),
+                          dict(rep, prefix=G.xwire(ops[: j + 1])[-1500:], impl=a[:2000], model=b[:2000]))
+        else:
+            sagree += 1
+        for msg in G.oracle_special(ops, A, request_object=(KIND[ob] == "req"))[:2]:
+            ctx.violation("store law broken on the implementation (%s, %s.http, %s): %s" % (sc, ob, label, msg), dict(rep, law=msg, impl=a[:2000]))
+
     # ------------------------------------------------------------ field.go functions vs the scanner
     freqs = []
     for n in range(0, 7 if thorough else 6):         # exhaustive: every subject of length <= n over 6 bytes
@@ -312,6 +360,9 @@ def run(ctx):
                              "mutating_ops": n_small, "histories_len_le_2": n_exh, "complete": True,
                              "len3_reduced_alphabet": exh3, "len3_4_sampled": n_s34},
         "oracle_histories": oracle_checked, "oracle_violations": oracle_viol,
+        "special_names_lines_scale": {"histories": len(spec), "agree": sagree,
+                                      "names": [p[0][:24] for p in G.SPECIAL_NAMES], "ballast_sizes": [1, 10, 95, 96, 97, 200, 1000],
+                                      "read_paths": ["obj.http.Name", "obj.http.Name:key", "header.get(obj, Name)", "header.get(obj, Name:key)"]},
         "multi_object": {"histories": len(multi), "agree": magree, "oracle_checked": moracle,
                          "exhaustive_len_le_2": n_mexh, "exhaustive_len_3_two_objects": mexh3,
                          "alphabet": "per scope with two or three writable objects: 2 spellings of one name, values x / empty / not set, key a, "
